@@ -50,7 +50,7 @@ func HarnessKeeperRefund() {
 	case 0:
 		err = w.K.OnTimeoutPacket(w.Ctx, port, channel, data)
 	case 1:
-		err = w.K.OnAcknowledgementPacket(w.Ctx, port, channel, data, channeltypes.NewErrorAcknowledgement(types.ErrReceiveFailed))
+		err = w.K.OnAcknowledgementPacket(w.Ctx, port, channel, data, errorAck())
 	default:
 		err = w.K.OnAcknowledgementPacket(w.Ctx, port, channel, data, channeltypes.NewResultAcknowledgement([]byte{1}))
 		verif.Reach("success acknowledgement")
@@ -138,7 +138,7 @@ func HarnessV1ModuleRefund() {
 	case 0:
 		err = w.V1.OnTimeoutPacket(w.Ctx, types.V1, packet, relayer)
 	case 1:
-		err = w.V1.OnAcknowledgementPacket(w.Ctx, types.V1, packet, channeltypes.NewErrorAcknowledgement(types.ErrReceiveFailed).Acknowledgement(), relayer)
+		err = w.V1.OnAcknowledgementPacket(w.Ctx, types.V1, packet, errorAck().Acknowledgement(), relayer)
 	default:
 		err = w.V1.OnAcknowledgementPacket(w.Ctx, types.V1, packet, channeltypes.NewResultAcknowledgement([]byte{1}).Acknowledgement(), relayer)
 		verif.Reach("success acknowledgement")
@@ -153,4 +153,9 @@ func HarnessV1ModuleRefund() {
 	}
 	verif.Reach("refunded")
 	refundContract(w, pre, snap, sender.Addr, port, channel, denom, coin)
+}
+
+// errorAck is an error acknowledgement with an arbitrary error string (counterparties other than ibc-go choose their own).
+func errorAck() channeltypes.Acknowledgement {
+	return channeltypes.Acknowledgement{Response: &channeltypes.Acknowledgement_Error{Error: verif.String("ackError")}}
 }
